@@ -211,10 +211,16 @@ type Sample struct {
 }
 
 type Job struct {
-	ID     int   `json:"id"`
-	Prefix []Dec `json:"prefix"`
-	Sample bool  `json:"sample,omitempty"`
-	Quit   bool  `json:"quit,omitempty"`
+	ID        int               `json:"id"`
+	Fn        string            `json:"fn"`
+	Params    map[string]int    `json:"params,omitempty"`
+	Overrides map[string]string `json:"overrides,omitempty"`
+	TimeoutMS int               `json:"timeout_ms,omitempty"`
+	MaxSteps  int64             `json:"max_steps,omitempty"`
+	XCheck    bool              `json:"xcheck,omitempty"`
+	Prefix    []Dec             `json:"prefix"`
+	Sample    bool              `json:"sample,omitempty"`
+	Quit      bool              `json:"quit,omitempty"`
 }
 
 type PathResult struct {
@@ -604,22 +610,63 @@ func (e *explorer) dependsOnSecret(t string) bool {
 // ---------------------------------------------------------------- per-path runner
 
 type Worker struct {
-	Main     *ssa.Package
-	Fn       *ssa.Function
-	Sizes    types.Sizes
-	Params   map[string]int
-	exp      *explorer
+	Main    *ssa.Package
+	Sizes   types.Sizes
+	exp     *explorer
+	lastFn  string
+	lastOvr string
 }
 
-func NewWorker(mainpkg *ssa.Package, fn *ssa.Function, params map[string]int, timeoutMS int, maxSteps int64, xcheck bool) *Worker {
-	e := &explorer{sol: newSolver(timeoutMS), seenFuncs: map[string]bool{}, seenStubs: map[string]bool{}, params: params}
+func NewWorker(mainpkg *ssa.Package) *Worker {
+	e := &explorer{sol: newSolver(20000), seenFuncs: map[string]bool{}, seenStubs: map[string]bool{}}
 	e.modPrefix = "github.com/wneessen/go-mail"
-	e.maxSteps = maxSteps
+	e.maxSteps = 50000000
 	e.maxConc = 4096
-	e.xcheck = xcheck
-	e.sol.keep = xcheck
 	ex = e
-	return &Worker{Main: mainpkg, Fn: fn, Sizes: &types.StdSizes{WordSize: 8, MaxAlign: 8}, Params: params, exp: e}
+	return &Worker{Main: mainpkg, Sizes: &types.StdSizes{WordSize: 8, MaxAlign: 8}, exp: e}
+}
+
+// configure applies the per-job settings (harness function, parameters,
+// environment-model overrides).
+func (w *Worker) configure(job Job) (*ssa.Function, string) {
+	e := w.exp
+	fn := w.Main.Func(job.Fn)
+	if fn == nil {
+		return nil, "no harness function " + job.Fn
+	}
+	var ks []string
+	for k, v := range job.Overrides {
+		ks = append(ks, k+"="+v)
+	}
+	sort.Strings(ks)
+	okey := strings.Join(ks, ",")
+	if okey != w.lastOvr || job.Fn != w.lastFn {
+		overrides = map[string]*ssa.Function{}
+		for target, h := range job.Overrides {
+			hf := w.Main.Func(h)
+			if hf == nil {
+				return nil, "override " + target + ": no harness function " + h
+			}
+			overrides[target] = hf
+		}
+		fnInfoCache = map[*ssa.Function]*fnInfoT{}
+		w.lastOvr = okey
+		if job.Fn != w.lastFn {
+			e.seenFuncs = map[string]bool{}
+			e.seenStubs = map[string]bool{}
+			w.lastFn = job.Fn
+		}
+	}
+	e.params = job.Params
+	if job.TimeoutMS > 0 {
+		e.sol.timeoutMS = job.TimeoutMS
+	}
+	if job.MaxSteps > 0 {
+		e.maxSteps = job.MaxSteps
+	}
+	e.xcheck = job.XCheck
+	e.sol.keep = job.XCheck
+	return fn, ""
 }
 
 func (w *Worker) Close() { w.exp.sol.close() }
@@ -628,6 +675,10 @@ func (w *Worker) RunPath(job Job) (res PathResult) {
 	e := w.exp
 	t0 := time.Now()
 	q0, s0, u0, k0, d0 := e.sol.queries, e.sol.nsat, e.sol.nunsat, e.sol.nunknown, e.sol.dur
+	fn, cerr := w.configure(job)
+	if fn == nil {
+		return PathResult{ID: job.ID, Outcome: "abort", Why: cerr}
+	}
 	e.resetPath(job.Prefix)
 	i := &interpreter{
 		prog:       w.Main.Prog,
@@ -665,7 +716,7 @@ func (w *Worker) RunPath(job Job) (res PathResult) {
 			}
 		}()
 		call(i, nil, token.NoPos, w.Main.Func("init"), nil)
-		call(i, nil, token.NoPos, w.Fn, nil)
+		call(i, nil, token.NoPos, fn, nil)
 	}()
 	if res.Outcome == "ok" && e.replaying() {
 		res.Outcome, res.Why = "abort", fmt.Sprintf("replay divergence: path ended with %d unused decisions", len(e.prefix)-e.pos)
